@@ -2099,6 +2099,24 @@ def fc_parse_case(cls_name: str, leaf: int, junk: list[int], hold: bool):
     return list(dup_report(scan_map(v))), raised, name, len(leaves)
 
 
+def fc_shallow_case(cls_name: str, which: int, hold: bool):
+    """copy.copy() of the `which`-th live object of the class; the copy is dropped (at once, or after some allocations); new objects
+    are allocated; problems of the scan."""
+    import copy
+    v = _fc_map()
+    live = {'Solid': lambda: list(v.brushes), 'Side': lambda: [b.sides[0] for b in v.brushes], 'Entity': lambda: list(v.entities),
+            'VisGroup': lambda: list(_walk_vis(v.vis_tree)), 'EntityGroup': lambda: list(v.groups.values())}[cls_name]()
+    x = copy.copy(live[which % len(live)])
+    del live
+    if hold:
+        _fc_allocate(v)
+    probs = list(dup_report(scan_map(v)))
+    del x
+    gc.collect()
+    _fc_allocate(v)
+    return probs + list(dup_report(scan_map(v)))
+
+
 def search_failed_constructors(ck: Ck) -> None:
     import sys
     hook = sys.unraisablehook
@@ -2120,7 +2138,7 @@ def _search_failed_constructors(ck: Ck) -> None:
     n_ctor = n_raise = 0
     for cls_name in ID_PARAMS:
         cls = getattr(V, cls_name)
-        params = [p for p in list(inspect.signature(cls.__init__).parameters)[2:] if p != ID_PARAMS[cls_name] and p not in _fc_required(cls_name)]
+        params = [p for p in list(inspect.signature(cls.__init__).parameters)[2:] if p != ID_PARAMS[cls_name]]
         for pi, param in enumerate(params):
             for hold in (False, True):
                 which = ck.rng.randrange(4)
@@ -2165,12 +2183,148 @@ def _search_failed_constructors(ck: Ck) -> None:
                         found.setdefault(key, (f'{cls_name}.parse(map, <exported block of a live object with "{name}" = {jt}>) raises; afterwards {kind} IDs {what}: {vals}',
                                                {'mode': 'parse', 'cls': cls_name, 'leaf': leaf, 'junk': [j], 'hold': hold, 'problem': [kind, what, vals]}))
                         break
+    # objects that come into being WITHOUT the constructor: copy.copy() of a live object (same map).  A field-by-field duplicate would
+    # hold the ID of its source without having registered it, and release it when it dies.
+    for cls_name in ID_PARAMS:
+        for which in range(3):
+            for hold in (False, True):
+                probs = fc_shallow_case(cls_name, which, hold)
+                ck.count('copy_module_copies')
+                ck.seen(('shallow', cls_name, which, hold))
+                if probs:
+                    kind, what, vals = probs[0]
+                    key = f'{"fixup-index" if kind.startswith("fixup") else kind + "-id"}-{what}-after-copy-module-copy'
+                    found.setdefault(key, (f'copy.copy(<live {cls_name}>) is dropped; afterwards {kind} IDs {what}: {vals}',
+                                           {'mode': 'shallow', 'cls': cls_name, 'which': which, 'hold': hold, 'problem': [kind, what, vals]}))
     gc_end()
     ck.extra['failed_constructor_search'] = {'constructor_calls': n_ctor, 'calls_that_raised': n_raise}
     ck.obligation('search:some-constructor-calls-do-fail', n_raise >= 20, f'{n_raise} of the junk / corrupted calls raised')
     for key, (what, rep) in found.items():
         rep['how'] = 'checks.c08.fc_ctor_case(cls, param, junk, which, hold) / fc_parse_case(cls, leaf, junk, hold): problems after the failing call, gc and new allocations'
         ck.violation(key, what, rep)
+
+
+CTOR_PRE = PRE + '''
+Definition ctor_obs_ok (k : kind) (o : bool * bool * bool * bool) : bool :=
+  match List.find (fun r : kind * String.string * list ctor_step * bool * bool => kind_eqb k (fst (fst (fst (fst r))))) ctor_classes with
+  | Some r =>
+      let steps := List.map ctor_step_of (snd (fst (fst r))) in
+      let has := fst (fst (fst o)) in let reg := snd (fst (fst o)) in let own := snd (fst o) in
+      andb (existsb (fun s : bool * bool * bool => andb (andb (Bool.eqb (fst (fst s)) has) (Bool.eqb (snd (fst s)) reg)) (Bool.eqb (snd s) own))
+                    (fail_states steps false false false))
+           (Bool.eqb (snd o) (andb (andb (snd (fst r)) (orb (negb (snd r)) own)) has))
+  | None => false
+  end.
+'''
+MGR_OF_CLASS = {'Solid': 'solid_id', 'Side': 'face_id', 'Entity': 'ent_id', 'VisGroup': 'vis_id', 'EntityGroup': 'group_id'}
+
+
+def fc_observe(cls_name: str, flag: str | None, fn):
+    """One failing call on a fresh map: the state of the half-built object of class `cls_name` (found through the traceback: the
+    outermost `__init__` frame whose `self` is of that class) as (slot `id` set, the value was handed out by the manager during this
+    call, ownership flag, the ID it holds left the manager when the object died).  None: the call did not raise / no object existed."""
+    import srctools.vmf as V
+    cls = getattr(V, cls_name)
+    v = _fc_map()
+    mgr = getattr(v, MGR_OF_CLASS[cls_name])
+    before = set(mgr)
+    exc = None
+    try:
+        fn(v)
+    except Exception as e:
+        exc = e
+    if exc is None:
+        return None
+    obj = None
+    tb = exc.__traceback__
+    while tb is not None:
+        fr = tb.tb_frame
+        if fr.f_code.co_name == '__init__' and type(fr.f_locals.get('self')) is cls:
+            obj = fr.f_locals['self']
+            break
+        tb = tb.tb_next
+    fr = tb = None
+    if obj is None:
+        return None
+    has = hasattr(obj, 'id')
+    hid = obj.id if has else None
+    reg = bool(has and hid in (set(mgr) - before))
+    own = bool(getattr(obj, flag, False)) if flag else False
+    held = has and hid in mgr
+    obj = exc = None
+    gc.collect()
+    released = bool(held and hid not in mgr)
+    return (has, reg, own, released)
+
+
+def corr_ctor(ck: Ck, rows: list[dict]):
+    """The constructor step lists read from the source (SM/IdCtor.v fail_states / the destructor shape) against the half-built objects
+    that failing constructor and parse calls really leave behind."""
+    import inspect
+    import sys
+    import srctools.vmf as V
+    hook = sys.unraisablehook
+    sys.unraisablehook = lambda *a: None
+    obs: dict[str, dict[tuple, str]] = {}
+    n_calls = 0
+    try:
+        gc_begin()
+        for row in rows:
+            cls_name, flag = row['cls'], row.get('flag')
+            cls = getattr(V, cls_name)
+            seen: dict[tuple, str] = obs.setdefault(cls_name, {})
+            params = [p for p in list(inspect.signature(cls.__init__).parameters)[2:] if p != ID_PARAMS[cls_name]]
+            for param in params:
+                for j in range(len(JUNK_ARGS)):
+                    def call(v, param=param, j=j):
+                        val = object() if JUNK_ARGS[j] is object else JUNK_ARGS[j]
+                        kw = dict(_fc_required(cls_name))
+                        kw[ID_PARAMS[cls_name]] = _fc_target(v, cls_name, j)
+                        kw[param] = val
+                        cls(v, **kw)
+                    o = fc_observe(cls_name, flag, call)
+                    n_calls += 1
+                    if o is not None:
+                        seen.setdefault(o, f'{cls_name}(map, {ID_PARAMS[cls_name]}=<live ID>, {param}={JUNK_ARGS[j]!r})')
+                        ck.hist('half_built_states', f'{cls_name}:id_set={o[0]},registered={o[1]},owned={o[2]},released={o[3]}')
+            n_leaves = fc_parse_case(cls_name, 0, [], False)[3]
+            for leaf in range(n_leaves):
+                for j in (0, 2, len(JUNK_TEXT)):        # a word, a broken vector, the leaf removed (the search stage tries all)
+                    def call(v, leaf=leaf, j=j):
+                        base = _fc_blocks(v)[cls_name]
+                        path = list(_fc_leaves(base))[leaf]
+                        if j >= len(JUNK_TEXT):
+                            del _fc_at(base, path[:-1])[path[-1]]
+                        else:
+                            _fc_at(base, path).value = JUNK_TEXT[j]
+                        cls.parse(v, base)
+                    o = fc_observe(cls_name, flag, call)
+                    n_calls += 1
+                    if o is not None:
+                        seen.setdefault(o, f'{cls_name}.parse(map, <block of a live object, leaf {leaf} := junk {j}>)')
+                        ck.hist('half_built_states', f'{cls_name}:id_set={o[0]},registered={o[1]},owned={o[2]},released={o[3]}')
+        gc_end()
+    finally:
+        sys.unraisablehook = hook
+    ck.count('ctor_failure_observations', n_calls)
+    b = {True: 'true', False: 'false'}
+    order = [(r['kind'], r['cls'], sorted(obs.get(r['cls'], {}))) for r in rows]
+    exprs = [f'bad_idx (ctor_obs_ok {kind}) 0 {coq_list("(%s, %s, %s, %s)" % tuple(b[x] for x in o) for o in lst)}' for kind, _, lst in order]
+    res = yield ('ctor', CTOR_PRE, exprs, 8)
+    if res is None:
+        ck.obligation('correspondence:ctor-failure-states', False, 'model could not be evaluated')
+        ck.tie_broken.append('correspondence constructor failure states: model evaluation failed')
+        return
+    bad = [(cls, lst[i], obs[cls][lst[i]]) for (kind, cls, lst), idxs in zip(order, res) for i in idxs]
+    n_states = sum(len(l) for _, _, l in order)
+    ck.obligation('correspondence:ctor-failure-states', not bad and n_states >= 3,
+                  f'{n_calls} junk / corrupted constructor and parse calls, {n_states} distinct (class, id slot set, registered, flag, released) states of half-built '
+                  f'objects, each must be a state of the step list read from the source and released as its destructor shape says: {len(bad)} disagreements')
+    ck.extra['half_built_states'] = {cls: [{'id_set': o[0], 'registered': o[1], 'owned': o[2], 'released_on_death': o[3], 'example': obs[cls][o]} for o in lst]
+                                     for _, cls, lst in order}
+    if bad:
+        ck.tie_broken.append('correspondence constructor failure states (SM/IdCtor.v fail_states vs half-built objects found through the traceback)')
+        ck.extra['ctor_state_disagreement'] = [{'cls': c, 'state(id_set,registered,owned,released)': list(o), 'example': ex} for c, o, ex in bad[:5]]
 
 
 class ImplHang(BaseException):      # not an Exception: the `except Exception` of a history runner must not swallow it
@@ -2324,6 +2478,7 @@ def run(ck: Ck) -> None:
             'visgroup_constructor_failure_releases_only_its_own_id': 'constructor_fails_safely KVis',
             'group_constructor_failure_releases_only_its_own_id': 'constructor_fails_safely KGroup',
             'constructors_fail_safely': 'constructors_fail_safely',
+            'copy_module_copies_go_through_copy': 'copy_module_copies_are_real_copies',
             'no_unclassified_release_site': 'forallb (fun x : kind * site * String.string => match snd (fst x) with SOther => false | _ => true end) release_sites',
         })
         prog = [r[0] for r in side.get('parse_program', [])] or None
@@ -2332,7 +2487,8 @@ def run(ck: Ck) -> None:
             ck.tie_broken.append('instance obligations: ' + ', '.join(failed))
         ror = any(r[0] == 'KEnt' and r[1] != 'SDel' for r in side.get('releases', []))
         stages = [('idman', corr_idman, ()), ('fixup', corr_fixups, (bool(side.get('fixup_init_requires_positive')), bool(side.get('fixup_init_defers', True)))),
-                  ('lifecycle', corr_lifecycle, (ror,)), ('world', corr_world, (prog,)), ('node', corr_nodes, ()), ('parse', corr_parse, (prog,))]
+                  ('lifecycle', corr_lifecycle, (ror,)), ('world', corr_world, (prog,)), ('node', corr_nodes, ()), ('parse', corr_parse, (prog,)),
+                  ('ctor', corr_ctor, (side.get('ctor_classes', []),))]
         escalated_from_start = bool(ck.tie_broken)
         for name, fn, args in stages:
             guarded(ck, name, fn, *args)
@@ -2401,6 +2557,9 @@ def run(ck: Ck) -> None:
         if has(kind + '-id-', '-after-failed-'):
             ck.explain(f'instance:{name}_constructor_failure_releases_only_its_own_id')
             ck.explain('instance:constructors_fail_safely')
+            ck.explain('correspondence:ctor-failure-states')
+    if has('-after-copy-module-copy'):
+        ck.explain('instance:copy_module_copies_go_through_copy')
     if has('parse-') or has('-after-parse'):
         ck.explain('correspondence:parse')
         ck.explain('correspondence:parse-destructor-time')
@@ -2423,6 +2582,9 @@ def replay(data: dict) -> int:
         return 0
     if r.get('mode') == 'parse':
         print(fc_parse_case(r['cls'], r['leaf'], r['junk'], r['hold']))
+        return 0
+    if r.get('mode') == 'shallow':
+        print(fc_shallow_case(r['cls'], r['which'], r['hold']))
         return 0
     if 'history' in r:
         steps, _, _ = run_history([tuple(e) for e in r['history']])
